@@ -50,6 +50,7 @@ type Case struct {
 	RawType        string   `json:"raw_type"`        // HttpBody content type (routes raw / rb-body)
 	RawData        []byte   `json:"raw_data"`
 	HeaderMode     string   `json:"header_mode"` // "", "set" (grpc.SetHeader) or "send" (grpc.SendHeader) before the reply is returned
+	ReqGzip        bool     `json:"req_gzip"`    // POST: the request body itself travels gzip-compressed (Content-Encoding: gzip)
 }
 
 var (
@@ -148,6 +149,11 @@ func Check(c Case) ([]evid.Violation, info) {
 			body = []byte(`{"fInt32":1}`)
 		} else {
 			body = []byte{0x18, 0x01}
+		}
+		if c.ReqGzip {
+			// what the request's own body is encoded with says nothing about the response
+			body = drive.Gzip(body)
+			hdr.Set("Content-Encoding", "gzip")
 		}
 		req = drive.Request("POST", "/c4/"+c.Route, "", hdr, bytes.NewReader(body), int64(len(body)))
 	} else {
@@ -296,6 +302,7 @@ func genCase(t *rapid.T) Case {
 		c.Verb = "GET"
 	}
 	c.HeaderMode = rapid.SampledFrom([]string{"", "", "set", "send"}).Draw(t, "headerMode")
+	c.ReqGzip = c.Verb == "POST" && rapid.IntRange(0, 3).Draw(t, "reqGzip") == 0
 	nl := rapid.SampledFrom([]int{0, 1, 1, 1, 2, 3}).Draw(t, "nAcceptLines")
 	for i := 0; i < nl; i++ {
 		c.Accept = append(c.Accept, genAcceptLine(t))
@@ -343,10 +350,16 @@ func TestProp(t *testing.T) {
 		} else {
 			cl = append(cl, "accept-absent")
 		}
+		if c.ReqGzip {
+			cl = append(cl, "request-body-gzip")
+		}
 		nonEmpty := len(c.Reply) > 0 || len(c.RawData) > 0
 		key := ""
 		if nonEmpty && (nranges >= 2 || hasQ || hasWild || c.Route != "plain") {
 			key = fmt.Sprintf("%s|%s|%s|%v|%d|%v|%v|%d|%s", c.Route, c.Verb, c.ContentType, in.contested, in.adm, hasQ, hasWild, nranges, c.HeaderMode)
+			if c.ReqGzip {
+				key += "|reqgzip"
+			}
 			if c.Route == "plain" || strings.HasPrefix(c.Route, "rb-") {
 				key += "|" + strings.Join(c.Accept, "\n")
 			}
